@@ -116,34 +116,16 @@ def run(repo, rep, tier):
     hs = [n for n in walk_no_nested(tw) if isinstance(n, ast.Assign) and unparse(n.targets[0]) in ('my_aconf.host', 'my_aconf.port')]
     ok = sorted((unparse(n.targets[0]), unparse(n.value)) for n in hs) == [('my_aconf.host', 'host'), ('my_aconf.port', 'port')]
     rep.check('dial', 'worker configures its copy with the task\'s host and port', ok, tw, 'worker host/port stores: %s' % [(unparse(n.targets[0]), unparse(n.value)) for n in hs])
-    subs = [n for n in walk_no_nested(mn) if isinstance(n, ast.Call) and isinstance(n.func, ast.Attribute) and n.func.attr == 'submit']
-    ok = len(subs) == 1 and len(subs[0].args) == 4 and unparse(subs[0].args[0]) == 'target_worker_thread' and unparse(subs[0].args[3]) == 'aconf'
-    if ok:
-        comp = subs[0]
-        while not isinstance(comp, (ast.DictComp, ast.ListComp, ast.SetComp, ast.GeneratorExp, ast.For)):
-            comp = comp._parent
-        gen = comp.generators[0] if not isinstance(comp, ast.For) else comp
-        it, tgt = gen.iter, gen.target
-        a1, a2 = unparse(subs[0].args[1]), unparse(subs[0].args[2])
-        if isinstance(tgt, ast.Name):
-            okc = (a1, a2) == ('%s[0]' % tgt.id, '%s[1]' % tgt.id)
-        elif isinstance(tgt, ast.Tuple) and len(tgt.elts) == 2:
-            okc = (a1, a2) == (unparse(tgt.elts[0]), unparse(tgt.elts[1]))
-        else:
-            okc = False
-        rep.check('dial', 'each task receives the host and the port of the parsed pair it stands for, in that order', okc, subs[0], 'task submitted with host=%s port=%s for element %s' % (a1, a2, unparse(tgt)))
-        rep.check('dial', 'tasks range over the parsed target list', unparse(it) == 'target_servers', comp, 'tasks iterate %s' % unparse(it))
-    else:
-        rep.check('dial', 'one task per parsed (host, port) pair', False, subs[0] if subs else mn, 'submit call not recognised')
-    ap = [n for n in walk_no_nested(mn) if isinstance(n, ast.Call) and unparse(n.func) == 'target_servers.append']
-    ph = [n for n in walk_no_nested(mn) if isinstance(n, ast.Assign) and isinstance(n.value, ast.Call) and unparse(n.value.func) == 'Utils.parse_host_and_port']
-    ok = len(ap) == 1 and unparse(ap[0].args[0]) == '(host, port)' and len(ph) == 1 and unparse(ph[0].targets[0]) == '(host, port)' and unparse(ph[0].value.args[0]) == 'target'
-    rep.check('dial', 'each targets-file entry is parsed into the (host, port) it names', ok, ph[0] if ph else mn, 'target parsing in main changed')
-    if ph:
-        dp = get_kw(ph[0].value, 'default_port')
-        rep.check('targets-file', 'the -p value is the default port for entries without one', dp is not None and unparse(dp) == 'aconf.port', ph[0], 'default_port is %s' % (unparse(dp) if dp is not None else 'not passed'))
-        lp2 = [t for t, p, k in path_condition(ph[0]) if k == 'for']
-        rep.check('dial', 'every entry of the target list is parsed', any('aconf.target_list' in unparse(t) for t in lp2) and not [x for x in path_condition(ph[0]) if x[2] in ('if', 'guard') and 'target' in unparse(x[0]) and 'target_list' not in unparse(x[0])], ph[0], 'target entries are filtered before parsing')
+    # main() interpreted for a targets file of three entries (props/_mainloop.py): every entry is parsed by Utils.parse_host_and_port with the -p value as the
+    # default port, and the task submitted for it receives exactly the (host, port) that parse returned, in that order -- loops, comprehensions, unpacking alike
+    from props import _mainloop
+    entries = ['alpha.example', '[::1]:2200', 'beta.example:2022']
+    r = _mainloop.run(repo, [0, 0, 0], False, targets=entries, parse=lambda v, dp: ('H<%s>' % v, 'P<%s|%s>' % (v, dp)), port=2222)
+    rep.evals()
+    rep.check('dial', 'every entry of the target list is parsed', [v for v, dp in r['parsed']] == entries, mn, 'target entries parsed: %s (listed: %s)' % ([v for v, dp in r['parsed']], entries), stmt='targets parsed')
+    rep.check('targets-file', 'the -p value is the default port for entries without one', all(dp == 2222 for v, dp in r['parsed']) and bool(r['parsed']), mn, 'default_port passed to parse_host_and_port: %s (the -p value is 2222)' % [dp for v, dp in r['parsed']], stmt='default port')
+    want = [('H<%s>' % v, 'P<%s|%s>' % (v, 2222)) for v in entries]
+    rep.check('dial', 'each task receives the host and the port of the parsed pair it stands for, in that order', r['submitted'] == want, mn, 'tasks submitted with (host, port) = %s, the parsed pairs are %s' % (r['submitted'], want), stmt='tasks per parsed pair')
     # command line: host/port stores
     st = [n for n in walk_no_nested(pc) if isinstance(n, ast.Assign) and unparse(n.targets[0]) in ('aconf.host', 'aconf.port')]
     ok = sorted((unparse(n.targets[0]), unparse(n.value)) for n in st) == [('aconf.host', 'host'), ('aconf.port', 'port')]
@@ -158,44 +140,35 @@ def run(repo, rep, tier):
     rep.check('dial', '-p value is argument.oport', sorted(unparse(n.value) for n in od) == ['argument.oport'] or sorted(unparse(n.value) for n in od) == ['None', 'argument.oport'], pc, 'oport definitions changed')
 
     # ---- rule 2: labels --------------------------------------------------------------------------------------------------
-    def label_cases(func, blockfinder, var, what):
-        blk = blockfinder(func)
-        if blk is None:
-            raise AnalysisError('label block not found in %s' % func.name)
-        for ipv6, port in itertools.product([False, True], [22, 2222]):
-            env = {'aconf.host': 'H', 'aconf.port': port, 'Utils.is_ipv6_address(aconf.host)': ipv6, var: None}
-            track_block(blk, env, {var}, on_eval=rep.evals)
-            want = 'H' if port == 22 else ('[H]:2222' if ipv6 else 'H:2222')
-            rep.check('label', '%s: ipv6=%s port=%d -> %s' % (what, ipv6, port, want), env[var] == want, blk[0], '%s label for ipv6=%s port=%d is %r, expected %r' % (what, ipv6, port, env[var], want))
+    # output() (with the target line requested) and evaluate_policy() interpreted for host H, ports 22 / 2222, IPv4-style and IPv6 host (props/_sections.py):
+    # the target / Host line shows H for the default port, H:2222 otherwise, [H]:2222 for an IPv6 literal
+    from props import _sections as _sec
     outf = repo.func('ssh_audit', 'output')
     ep = repo.func('ssh_audit', 'evaluate_policy')
-
-    def find_block(func):
-        for n in walk_no_nested(func):
-            for fld in ('body', 'orelse'):
-                b = getattr(n, fld, None)
-                if isinstance(b, list) and any(isinstance(s, ast.Assign) and unparse(s.targets[0]) == 'host' and 'aconf.host' in unparse(s.value) for s in b):
-                    i = [k for k, s in enumerate(b) if isinstance(s, ast.Assign) and unparse(s.targets[0]) == 'host' and 'aconf.host' in unparse(s.value)][0]
-                    return b[i:i + 2]
-        return None
-    label_cases(outf, find_block, 'host', 'text target')
-    label_cases(ep, find_block, 'host', 'policy Host')
-    tl = [n for n in walk_no_nested(outf) if isinstance(n, ast.Call) and unparse(n.func) == 'out.good' and n.args and '(gen) target' in unparse(n.args[0])]
-    rep.check('label', 'the target line prints that label', len(tl) == 1 and 'host' in [x.id for x in ast.walk(tl[0].args[0]) if isinstance(x, ast.Name)], tl[0] if tl else outf, 'target line changed')
-    hl = [n for n in walk_no_nested(ep) if isinstance(n, ast.Call) and unparse(n.func) == 'out.info' and n.args and 'Host:' in unparse(n.args[0])]
-    rep.check('label', 'the policy Host line prints that label', len(hl) == 1 and 'host' in [x.id for x in ast.walk(hl[0].args[0]) if isinstance(x, ast.Name)], hl[0] if hl else ep, 'Host line changed')
+    for funcname, marker, what, fnode in (('output', 'target', 'text target', outf), ('evaluate_policy', 'Host', 'policy Host', ep)):
+        for ipv6, port in itertools.product([False, True], [22, 2222]):
+            lines = [l for l in _sec.printed_lines(repo, funcname, 'H', port, ipv6) if isinstance(l, str) and marker in l]
+            rep.evals()
+            want = 'H' if port == 22 else ('[H]:2222' if ipv6 else 'H:2222')
+            got = lines[0].split(':', 1)[1].strip() if lines else None
+            rep.check('label', '%s: ipv6=%s port=%d -> %s' % (what, ipv6, port, want), len(lines) == 1 and got == want, fnode, '%s label for ipv6=%s port=%d is %r, expected %r' % (what, ipv6, port, got, want), stmt='%s label ipv6=%s port=%d' % (what, ipv6, port))
     js = [n for n in walk_no_nested(ep) if isinstance(n, ast.Assign) and unparse(n.targets[0]) == 'json_struct' and isinstance(n.value, ast.Dict)]
     ok = False
     if js:
         d = dict(zip([k.value for k in js[0].value.keys], [unparse(v) for v in js[0].value.values]))
         ok = d.get('host') == 'aconf.host' and d.get('port') == 'aconf.port'
     rep.check('label', 'policy JSON carries aconf.host and aconf.port', ok, js[0] if js else ep, 'policy JSON host/port changed')
-    bsc = [n for n in walk_no_nested(outf) if isinstance(n, ast.Call) and call_name(n) == 'build_struct']
-    ok = len(bsc) == 1 and unparse(bsc[0].args[0]) == "aconf.host + ':' + str(aconf.port)"
-    rep.check('label', 'JSON target is aconf.host:aconf.port', ok, bsc[0] if bsc else outf, 'JSON target label is %s' % (unparse(bsc[0].args[0]) if bsc else '?'))
+    # JSON target label, by interpretation (props/_sections.py): output() in JSON mode for host 'h', port 22 hands build_struct the label 'h:22', and build_struct
+    # stores the label it is given under 'target' (server audits)
+    from props import _sections
+    for port_ in (22, 2222, 1, 65535):
+        res_ = _sections.run_output(repo, 2, True, port=port_)
+        lab = [j_.get('target_host') for r_ in res_ for j_ in r_['json']]
+        rep.evals()
+        rep.check('label', 'JSON target is aconf.host:aconf.port (port %d)' % port_, lab == ['h:%d' % port_], outf, 'JSON target label is %s for host h port %d' % (lab, port_), stmt='json target label')
     bs = repo.func('ssh_audit', 'build_struct')
-    tgt = [n for n in walk_no_nested(bs) if isinstance(n, ast.Assign) and unparse(n.targets[0]) == "res['target']"]
-    rep.check('label', 'JSON target field is that label', len(tgt) == 1 and unparse(tgt[0].value) == 'target_host', tgt[0] if tgt else bs, 'res[target] changed')
+    st_, _l = _sections.run_build_struct(repo, 2)
+    rep.check('label', 'JSON target field is that label', st_.get('target') == 'h:22' and 'client_ip' not in st_, bs, 'res[target] is %r for the label h:22' % (st_.get('target'),), stmt='json target field')
 
     # ---- rule 3: port range -------------------------------------------------------------------------------------------------
     def port_guard(func, var, what):
